@@ -23,7 +23,11 @@ k, m = sp.symbols("k m", positive=True)
 xr, yr = sp.symbols("x y", real=True)  # no sign known: sqrt(x*y) is not sqrt(x)*sqrt(y)
 COEFFS = {"1": sp.S.One, "-1": -sp.S.One, "2": sp.Integer(2), "k": k, "-k": -k, "k+1": k + 1,
     "1/k": 1 / k, "k*m": k * m, "sqrt(x*y)": sp.sqrt(xr * yr), "log(x*y)": sp.log(xr * yr),
-    "(x*y)**(1/3)": (xr * yr)**sp.Rational(1, 3)}
+    "(x*y)**(1/3)": (xr * yr)**sp.Rational(1, 3),
+    # complex coefficients of modulus one: their reciprocal is the conjugate, not the number itself
+    "I": sp.I, "-I": -sp.I, "exp(I*p)": sp.exp(sp.I * sp.Symbol("p", real=True)),
+    "(1+I)/sqrt(2)": (1 + sp.I) / sp.sqrt(2)}
+UNIT_COMPLEX = ("I", "-I", "exp(I*p)", "(1+I)/sqrt(2)")
 VECS = ["a", "b", "c", "cross(a,b)", "ucross(a,b)", "2a", "cross(a,c)"]
 
 
@@ -57,6 +61,13 @@ def combos(thorough: bool) -> list[tuple]:
     out: list[tuple] = [(t, ) for t in [(c, v) for c in COEFFS for v in VECS]]
     out += list(itertools.product(terms, repeat=2))
     out += list(itertools.product(small, repeat=3))
+    cx = [(c, v) for c in UNIT_COMPLEX for v in ("a", "b", "cross(a,b)")]
+    partners = [(c, v) for c in ("1", "-k", "k+1") for v in ("a", "b", "cross(a,b)")]
+    seen = set(out)
+    for pair in itertools.chain(itertools.product(cx, partners), itertools.product(partners, cx)):
+        if pair not in seen:
+            out.append(pair)
+            seen.add(pair)
     return out
 
 
@@ -319,7 +330,7 @@ def main(run: Run) -> int:
         run.absorb([r])
     run.note(linear_combinations=len(cs))
     return run.finish(
-        rule="all linear combinations of 1..2 terms over 8 coefficients x 7 vector terms and of 3 "
+        rule="all linear combinations of 1..2 terms over the coefficient alphabet (real, symbolic, radical, 4 complex of modulus one) x 7 vector terms and of 3 "
         "terms over a reduced alphabet, x unknown in {a, b, c, d (absent)} x {expression, equation "
         "split over both sides} x {reduce_factor on, off}; plus non-vector inputs, vectors that are "
         "not terms, 9 scalar equations, 64 apply cases (4 vector functions x 6 vector inputs, 4 scalar "
